@@ -144,6 +144,17 @@ func (c *callStateCache) get(callID string, auth *AuthContext) *resolvedCall {
 }
 
 func (c *callStateCache) put(callID string, auth *AuthContext, call *resolvedCall) {
+	if c == nil {
+		return
+	}
+	c.putUntil(callID, auth, call, time.Now().Add(c.ttl))
+}
+
+// putUntil caches a call with an explicit expiry. Callers that hold the call
+// token pass the token's own expiry (CreatedAt + TTL), so an entry can never
+// outlive the token it stands in for: a warm process must refuse exactly the
+// continuations a cold one refuses.
+func (c *callStateCache) putUntil(callID string, auth *AuthContext, call *resolvedCall, expiresAt time.Time) {
 	if c == nil || c.max <= 0 {
 		return
 	}
@@ -152,13 +163,13 @@ func (c *callStateCache) put(callID string, auth *AuthContext, call *resolvedCal
 	defer c.mu.Unlock()
 	if el, ok := c.entries[key]; ok {
 		el.Value.(*callStateEntry).call = call
-		el.Value.(*callStateEntry).expiresAt = time.Now().Add(c.ttl)
+		el.Value.(*callStateEntry).expiresAt = expiresAt
 		c.order.MoveToFront(el)
 		return
 	}
 	el := c.order.PushFront(&callStateEntry{
 		key:       key,
-		expiresAt: time.Now().Add(c.ttl),
+		expiresAt: expiresAt,
 		call:      call,
 	})
 	c.entries[key] = el
@@ -457,7 +468,8 @@ func (h *HttpServer) packCallToken(callID string, outputSchema *arrow.Schema, au
 	}
 	// Warm the cache with the values we already hold, so this stream's first
 	// continuation does not have to open the token it was just handed.
-	h.callStates.put(callID, auth, &resolvedCall{SchemaIPC: data.SchemaIPC, StreamID: streamID})
+	h.callStates.putUntil(callID, auth, &resolvedCall{SchemaIPC: data.SchemaIPC, StreamID: streamID},
+		time.Unix(data.CreatedAt, 0).Add(h.tokenTTL))
 	return token, nil
 }
 
@@ -541,7 +553,9 @@ func (h *HttpServer) resolveCall(cursor *cursorTokenData, callToken []byte, auth
 	}
 
 	got := &resolvedCall{SchemaIPC: data.SchemaIPC, StreamID: data.StreamID}
-	h.callStates.put(cursor.CallID, auth, got)
+	// Expire the entry with the call token, not TTL from now: the cache only
+	// saves work and must not extend the token's lifetime.
+	h.callStates.putUntil(cursor.CallID, auth, got, time.Unix(data.CreatedAt, 0).Add(h.tokenTTL))
 	return got, nil
 }
 
